@@ -122,7 +122,10 @@ def doc(desc, original, s):
             a, b, _ = loc_of(desc, n)
             idx = list(range(a, b))
         edits = [i for i in idx if s[i] != original[i]]
-        return dict(score=desc.get("max_edits", 0) - len(edits), breach=set(edits), region=True)
+        allowed = desc.get("max_edits", 0)
+        if desc.get("max_edits_percent") is not None:
+            allowed = math.floor(desc["max_edits_percent"] * len(idx) / 100.0)
+        return dict(score=allowed - len(edits), breach=set(edits), region=True)
     if k in ("change", "change_idx", "change_min", "change_obj"):
         if k == "change_idx" or desc.get("indices") is not None:
             idx = list(desc["indices"])
